@@ -69,7 +69,7 @@ RelToAbs(rel) ==
 BagOfSeq(s) == LET R == SeqRange(s) IN [e \in R |-> Cardinality({i \in DOMAIN s : s[i] = e})]
 EventBag(evs) == BagOfSeq([i \in DOMAIN evs |-> Ev(evs[i])])
 (* the two views of one object describe the same content: same timed events, same duration *)
-ViewsAgree(abs, rel) == /\ BagOfSeq(AbsEvents(abs)) = BagOfSeq(RelEvents(rel))
+SameContent(abs, rel) == /\ BagOfSeq(AbsEvents(abs)) = BagOfSeq(RelEvents(rel))
                         /\ AbsDur(abs) = RelDur(rel)
 EventBagCh(evs) == BagOfSeq([i \in DOMAIN evs |-> EvCh(evs[i])])
 NonNote(evs) == SelectSeq(evs, LAMBDA m : ~IsNote(m))
